@@ -319,6 +319,8 @@ def run(ck, w):
     if good:
         ck.ok(o)
 
+    _append_only(ck, w)
+
     # ---- 6. every Ok path records an entry ------------------------------------------------------------------------
     for fn in ("backup::BackupWriter::copy_dir", "backup::BackupWriter::copy_symlink", "backup::BackupWriter::copy_file"):
         b = w.body(fn)
@@ -336,3 +338,41 @@ def run(ck, w):
         else:
             bad_bb = [bb for bb in oks if not b.must_pass_edges(edges, bb)][0]
             ck.fail(o, fn, "Ok without recording the entry", "path: %s" % rules.witness(b, bad_bb, removed_edges=edges))
+
+
+def _append_only(ck, w):
+    """Entries accepted by the writer are never dropped: the queues between copy_entry and the
+    hunk file are append-only until they are handed on."""
+    lib = w.lib
+    o = ck.ob("C01.6b", "FileCombiner.finished and IndexWriter.entries are only appended to (push/extend/append) until they are drained / written")
+    bad = []
+    n = 0
+    for b in rules.user_bodies(lib):
+        if rules.is_derive_body(b):
+            continue
+        st = b.self_ty or ""
+        for field, owner, ok_reset in (("finished", "backup::FileCombiner", {"backup::FileCombiner::drain"}),
+                                       ("entries", "index::write::IndexWriter", {"index::write::IndexWriter::finish_hunk"})):
+            if owner not in st:
+                continue
+            for bb, j, s_ in b.all_assigns():
+                p = s_["pl"]["p"]
+                if p and p[-1].startswith("f:") and p[-1].split(":", 2)[2] == field:
+                    n += 1
+                    bad.append((b, "whole-field assignment to %s.%s" % (owner.split("::")[-1], field), "%s:%d" % (b.file, s_["line"])))
+            for e in b.events:
+                if e.bb not in b.live or not e.args:
+                    continue
+                if not re.search(r"Vec::<T, A>::(clear|truncate|pop|remove|swap_remove|drain|retain|dedup\w*|split_off)$|^std::mem::(take|replace|swap)$", e.name):
+                    continue
+                for x in flow.origins_x(lib, b, e.args[0]):
+                    path = x[2] if x[0] in ("param", "upvar") else ()
+                    if path and path[-1] == field and str(x[1]).startswith("self"):
+                        n += 1
+                        if b.root not in ok_reset:
+                            bad.append((b, "%s on %s.%s" % (e.name.split("::")[-1], owner.split("::")[-1], field), e.site()))
+    if bad:
+        for b, m, site in bad:
+            ck.fail(o, b.root, m, "%s: entries already accepted for this hunk would be lost" % m, site)
+    else:
+        ck.ok(o, "%d reset site(s), all in drain / finish_hunk" % n, instances=n)
